@@ -142,10 +142,10 @@ def rule_node_events(ctx: Ctx, out: Collector) -> None:
                     sym_of[ev.id] = 'K'
         for p_ in pubs:
             sym_of[p_] = 'P'
-        from .rt import _retry_unit
-        ru = _retry_unit(ctx)
-        for ev in g.events('loophead'):
-            if ev.inst.unit is ru:
+        from .rt import _retry_loop
+        ru, _rg, rhead = _retry_loop(ctx)
+        for ev in g.events('loophead') + g.events('loop'):
+            if ev.inst.unit is ru and ev.node is rhead.node:
                 sym_of[ev.id] = 'A'          # a new attempt begins
         if 'S' not in sym_of.values():
             continue
